@@ -14,6 +14,11 @@ pub enum Csg {
     Cylinder { c: [Fl; 3], r: Fl, hz: Fl },
     /// n . p - d (n need not be normalised)
     Half { n: [Fl; 3], d: Fl },
+    /// solid cone with its apex at `apex`, opening downwards (-z) with slope
+    /// `k` (radius = k * depth below the apex), cut off `h` below the apex:
+    /// max((sqrt(dx^2 + dy^2) - k (az - z)) / sqrt(1 + k^2), (az - h) - z).
+    /// The surface meets the axis at the apex, where the gradient is 0/0.
+    Cone { apex: [Fl; 3], k: Fl, h: Fl },
     Union(Box<Csg>, Box<Csg>),
     Inter(Box<Csg>, Box<Csg>),
     Diff(Box<Csg>, Box<Csg>),
@@ -60,6 +65,20 @@ impl Csg {
                 let az = ctx.abs(dz).unwrap();
                 let cap = ctx.sub(az, hz.0).unwrap();
                 ctx.max(side, cap).unwrap()
+            }
+            Csg::Cone { apex, k, h } => {
+                let dx = ctx.sub(x, apex[0].0).unwrap();
+                let dy = ctx.sub(y, apex[1].0).unwrap();
+                let dx2 = ctx.square(dx).unwrap();
+                let dy2 = ctx.square(dy).unwrap();
+                let s = ctx.add(dx2, dy2).unwrap();
+                let r = ctx.sqrt(s).unwrap();
+                let below = ctx.sub(apex[2].0, z).unwrap();
+                let kr = ctx.mul(below, k.0).unwrap();
+                let side = ctx.sub(r, kr).unwrap();
+                let side = ctx.div(side, (1.0 + k.0 * k.0).sqrt()).unwrap();
+                let base = ctx.sub(apex[2].0 - h.0, z).unwrap();
+                ctx.max(side, base).unwrap()
             }
             Csg::Half { n, d } => {
                 let a = ctx.mul(x, n[0].0).unwrap();
@@ -133,6 +152,21 @@ pub fn primitive(range: f32, smin: f32, smax: f32, halfspaces: bool) -> BoxedStr
                 .boxed(),
         ),
     ];
+    // cones: apex coordinates on a dyadic lattice half of the time, so that the
+    // apex (singular gradient) falls on octree / pixel grid lines
+    let lattice = move || {
+        prop_oneof![
+            1 => (-4i32..=4).prop_map(move |i| Fl((i as f32 * 0.125).clamp(-range, range))),
+            1 => coord(range),
+        ]
+        .boxed()
+    };
+    alts.push((
+        1,
+        ([lattice(), lattice(), lattice()], pos(0.4, 1.5), pos(smin, smax))
+            .prop_map(|(apex, k, h)| Csg::Cone { apex, k, h })
+            .boxed(),
+    ));
     if halfspaces {
         alts.push((
             1,
